@@ -68,6 +68,8 @@ class Pol(syn_models.SynPolicy):
             return VARIANT_NAMES[int(m.group(1))]
         if name == "di*.ident":
             return "Foo"
+        if self.f.only_darling and re.search(r"\.attrs\[\d+\]\.meta\.path\.segments\[0\]\.ident$", name) or (self.f.only_darling and re.search(r"^di\*\.attrs\[\d+\]\.meta\.path\.segments\[0\]\.ident$", name)):
+            return "darling"
         m = re.search(r"\.params\[(\d+)\]\.Type\.0\.ident$", name)
         if m:
             return "TU"[int(m.group(1))]
@@ -77,6 +79,8 @@ class Pol(syn_models.SynPolicy):
         s = self.concrete_ident(name)
         if s is not None:
             return s
+        if name.startswith("pq("):
+            return syn_models.SynPolicy.ident_str(self, I, st, name)
         if NESTED_WORD.search(name):
             # words inside a nested list (`supports(..)`, `attributes(..)`, `forward_attrs(..)`): a finite alphabet of valid and
             # invalid shape words (they are sliced and compared piecewise by the code, which is hopeless on unconstrained strings)
@@ -194,18 +198,25 @@ def outcome(I, l):
 class Src:
     """source text of the symbolic DeriveInput of leaf l"""
 
-    def __init__(self, prog, l, model_fn=None):
+    def __init__(self, prog, l, model_fn=None, darling=False):
+        self.darling = darling        # attribute paths were fixed to `darling` by the policy
         self.l = l
         self.prog = prog
         self.model_fn = model_fn      # () -> z3 model of the leaf's path condition (asked for only when a name is not a known constant)
         self._mdl = None
         self.ref = C13.Ref(prog, l, "expr")
         self.wit = C13.Wit(self.ref, "expr")
+        self.wit.model = self._model
         self.k = 0
         self.bad = None
 
     def d(self, k):
         return self.l.decisions.get(k)
+
+    def _model(self):
+        if self._mdl is None and self.model_fn is not None:
+            self._mdl = self.model_fn() or False
+        return self._mdl or None
 
     def name_of(self, var, dflt):
         wk = var[:-len(".sym")] + "#word" if var.endswith(".sym") else None
@@ -249,7 +260,7 @@ class Src:
         out = []
         for j in range(n):
             ab = "%s[%d]" % (at, j)
-            nm = self.name_of(ab + ".meta.path.segments[0].ident.sym", "zattr")
+            nm = "darling" if self.darling else self.name_of(ab + ".meta.path.segments[0].ident.sym", "zattr")
             f = self.d(ab + ".meta#d")
             if f in (0, None):
                 out.append("#[%s]" % nm)
